@@ -41,5 +41,88 @@ def oracleC10 (kind : Kind) (t : Trace) : Bool :=
       | [] => true
     go t
 
+/-! ### Reference bookkeeping for the lookup properties (C01, C05, C06, C07, C16)
+
+The oracle walks the trace keeping, per key, the value and clock reading of the most recent
+`insert`, the clock reading of the most recent insert/update/successful `get`, and whether
+that insert has since been invalidated. -/
+
+structure GEntry where
+  val : Nat
+  tIns : Nat
+  tAcc : Nat
+  alive : Bool
+  deriving Repr, DecidableEq, Inhabited
+
+structure Ghost where
+  now : Nat := 0
+  ents : List (Nat × GEntry) := []
+  deriving Repr, Inhabited
+
+/-- Keys (with the value when the lookup shows one) that an observation yields. -/
+def yields : Op → Obs → List (Nat × Option Nat)
+  | .get k, .val (some v) => [(k, some v)]
+  | .has k, .bool true => [(k, none)]
+  | .iter, .iter l => l.map fun kv => (kv.1, some kv.2)
+  | _, _ => []
+
+def killIf (f : Nat → GEntry → Bool) : List (Nat × GEntry) → List (Nat × GEntry)
+  | [] => []
+  | (k, ge) :: rest => (k, if f k ge then { ge with alive := false } else ge) :: killIf f rest
+
+def ghostStep (kind : Kind) (g : Ghost) (op : Op) (obs : Obs) : Ghost :=
+  match op, obs with
+  | .ins k v, _ => { g with ents := AL.put g.ents k { val := v, tIns := g.now, tAcc := g.now, alive := true } }
+  | .get k, .val (some _) =>
+    match AL.get? g.ents k with
+    | some ge => { g with ents := AL.put g.ents k { ge with tAcc := g.now } }
+    | none => g
+  | .inv k, _ => { g with ents := killIf (fun k' _ => k' == k) g.ents }
+  | .invAll, _ =>
+    match kind with
+    | .unsync => { g with ents := killIf (fun _ _ => true) g.ents }
+    | .sync => { g with ents := killIf (fun _ ge => ge.tIns < g.now) g.ents }
+  | .invIf p, _ => { g with ents := killIf (fun k ge => p.eval k ge.val) g.ents }
+  | .adv d, _ => { g with now := g.now + d }
+  | _, _ => g
+
+/-- C01: a yielded key has a most recent insert that is not invalidated, and a yielded
+value is exactly the value of that insert. -/
+def checkC01 (g : Ghost) (kv : Nat × Option Nat) : Bool :=
+  match AL.get? g.ents kv.1 with
+  | some ge => ge.alive && (match kv.2 with
+      | some v => v == ge.val
+      | none => true)
+  | none => false
+
+/-- C05: a yielded key was inserted/updated less than `ttl` ago. -/
+def checkC05 (ttl : Option Nat) (g : Ghost) (kv : Nat × Option Nat) : Bool :=
+  match ttl with
+  | none => true
+  | some d =>
+    match AL.get? g.ents kv.1 with
+    | some ge => decide (g.now < ge.tIns + d)
+    | none => false
+
+/-- C06: a yielded key was inserted, updated or successfully read less than `tti` ago. -/
+def checkC06 (tti : Option Nat) (g : Ghost) (kv : Nat × Option Nat) : Bool :=
+  match tti with
+  | none => true
+  | some d =>
+    match AL.get? g.ents kv.1 with
+    | some ge => decide (g.now < ge.tAcc + d)
+    | none => false
+
+def lookupOracle (kind : Kind) (check : Ghost → Nat × Option Nat → Bool) : Ghost → Trace → Bool
+  | _, [] => true
+  | g, (op, obs) :: rest =>
+    (yields op obs).all (check g) && lookupOracle kind check (ghostStep kind g op obs) rest
+
+def oracleC01 (kind : Kind) (t : Trace) : Bool := lookupOracle kind checkC01 {} t
+def oracleC05 (kind : Kind) (ttl : Option Nat) (t : Trace) : Bool :=
+  lookupOracle kind (checkC05 ttl) {} t
+def oracleC06 (kind : Kind) (tti : Option Nat) (t : Trace) : Bool :=
+  lookupOracle kind (checkC06 tti) {} t
+
 end Spec
 end MiniMoka
